@@ -299,6 +299,20 @@ class Session:
 
 
 # ----------------------------------------------------------------------------------------------------------------------
+# extra inputs of this check (the shared corpus has few compound statements with two long blocks and few `**` dicts)
+
+EXTRA_PROGRAMS = [
+    'if x:  # hx\n    a = 1  # a\n    b = 2  # b\n    c = 3  # c\nelse:  # e\n    d = 4  # d\n    # lead e\n    e = 5  # e\n    del f  # f\n',
+    'for i in seq:\n    # lead a\n    a = 1  # a\n    b += 2  # b\n    call(c)\nelse:\n    d = 4  # d\n    e(5)  # e\n    f = 6\nafter = 0  # after\n',
+    'try:\n    a = 1  # a\n    b = 2  # b\n    c = 3  # c\nexcept E as exc:  # h\n    h1 = 1  # h1\n    h2 = 2  # h2\nelse:\n    d = 4  # d\n'
+    '    e = 5  # e\nfinally:\n    # lead f\n    f = 6  # f\n    g = 7  # g\n    h = 8\n',
+    'while cond:  # w\n    a = 1  # a\n    b = 2  # b\nelse:\n    d = 4  # d\n    e = 5  # e\n    f = 6  # f\n\ndef fn():\n    if y:\n'
+    '        p = 1  # p\n        q = 2  # q\n    else:\n        r = 3  # r\n        s = 4  # s\n    return p\n',
+    'd = {k1: v1, k2: v2, **rest}  # d\ne = {**first, k: v,\n     k3: [1, 2],  # c\n     **last}\nf = {1: a, 2: b, 3: c}\ng = {**only}\n',
+    'cfg = {\n    "a": 1,  # ca\n    "b": {"x": x, **inner},  # cb\n    **base,\n    "c": 3,\n}\nuse(cfg, {**p, **q}, {k: v})\n',
+]
+
+# ----------------------------------------------------------------------------------------------------------------------
 # random pure-AST mutation of an arbitrary program (direction V)
 
 ASDL_BASE = {'stmt': ast.stmt, 'expr': ast.expr, 'keyword': ast.keyword, 'alias': ast.alias, 'withitem': ast.withitem,
@@ -312,6 +326,32 @@ OTHER_STMT = ['oth = 1  # other tree', '# lead other\nother_call(a,  b)  # trail
               'for oi in oj:\n    # inner\n    use(oi)\n', 'def ofn(a, b = 2):  # sig\n    return a  # r\n',
               'ol = [1,  # one\n      2]\n', 'with octx as ov:\n    ov()  # call\n']
 OTHER_EXPR = ['oname', '(o1 +  o2)', 'ofunc(oa,  ob)', '[oa,  # c\n ob]', '"ostr"', '17', 'o.attr', 'o[idx]', '{ok:  ov}']
+FOREIGN_TWO_BLOCK = [
+    ('if fc{n}:  # fh\n    fa{n} = 1  # fa\n    fb{n} = 2  # fb\n    fc{n}(1)  # fc\nelse:\n    # lead fd\n    fd{n} = 4  # fd\n'
+     '    fe{n} = 5  # fe\n    ff{n}: int = 6  # ff\n', ('body', 'orelse')),
+    ('for fi{n} in fj{n}:\n    fa{n} = 1  # fa\n    fb{n} += 2\n    fc{n}(1)  # fc\nelse:\n    fd{n} = 4  # fd\n    fe{n}(5)\n'
+     '    ff{n} = 6  # ff\n', ('body', 'orelse')),
+    ('while fw{n}:\n    fa{n} = 1  # fa\n    # lead fb\n    fb{n} = 2\n    fc{n} = 3\nelse:\n    fd{n} = 4  # fd\n    fe{n} = 5  # fe\n'
+     '    ff{n} = 6\n', ('body', 'orelse')),
+    ('try:  # ft\n    fa{n} = 1  # fa\n    fb{n} = 2  # fb\n    fc{n} = 3\nfinally:\n    fd{n} = 4  # fd\n    fe{n} = 5\n'
+     '    ff{n}(7)  # ff\n', ('body', 'finalbody')),
+    ('try:\n    fa{n} = 1  # fa\n    fb{n} = 2\n    fc{n} = 3  # fc\nexcept FE{n}:\n    pass\nelse:\n    fd{n} = 4  # fd\n'
+     '    fe{n} = 5  # fe\n    ff{n} = 6\n', ('body', 'orelse')),
+]
+
+
+def foreign_pair(sess, rng, n=0):
+    """Two statements of one compound statement of another FST tree, from two different blocks at consecutive indices."""
+    src, fields = rng.choice(FOREIGN_TWO_BLOCK)
+    src = src.format(n=n)
+    f = FST(src, 'exec')
+    sess.register_other(f)
+    o = f.a.body[0]
+    fa, fb = fields if rng.random() < 0.5 else fields[::-1]
+    c = rng.randrange(2)
+    return [getattr(o, fa)[c], getattr(o, fb)[c + 1]], f'{o.__class__.__name__}.{fa}[{c}],{fb}[{c + 1}]'
+
+
 SKIP_PRIM = {'kind', 'type_comment', 'simple', 'conversion', 'lineno', 'str', 'tag'}
 NO_LIST_OPS = {('Compare', 'ops'), ('Compare', 'comparators'), ('arguments', 'posonlyargs'), ('arguments', 'args'),
                ('arguments', 'kwonlyargs'), ('arguments', 'kw_defaults'), ('arguments', 'defaults'),
@@ -383,10 +423,136 @@ class Mutator:
         return self.other_node(typ)
 
     # one mutation -----------------------------------------------------------------------------------------------------
+    # alignment-sensitive special cases (spec/Reconcile.tla SiblingCopy, ForeignPair) ------------------------------------
+    STMT_BLOCKS = ('body', 'orelse', 'finalbody')
+
+    def sibling(self, nodes) -> bool:
+        """The k-th statement of one block of a compound statement is linked at / moved to / inserted behind the k-th
+        place of a sibling block of the same statement."""
+        rng, s = self.rng, self.s
+        cands = []
+        for o, _ in nodes:
+            if not isinstance(o, ast.stmt):
+                continue
+            fl = [f for f in self.STMT_BLOCKS if isinstance(getattr(o, f, None), list) and getattr(o, f)]
+            for f in fl:
+                for g in fl:
+                    if f != g:
+                        cands.append((o, f, g))
+        if not cands:
+            return False
+        big = [c for c in cands if len(getattr(c[0], c[1])) >= 2 and len(getattr(c[0], c[2])) >= 2]
+        o, f, g = rng.choice(big or cands)
+        F, G = getattr(o, f), getattr(o, g)
+        k = rng.randrange(min(len(F), len(G)))
+        if len(F) >= 2 and rng.random() < 0.7:
+            k = min(k, len(F) - 2)             # keep a following statement in F
+        kind = o.__class__.__name__
+        how = rng.choice(['replace', 'replace', 'insert', 'moveover'])
+        x = G[k]
+        if how == 'replace':
+            if F[k] is x:
+                return False
+            F[k] = x
+            s.mutated('replace_same', 'stmt.list.sibling', [s.site(o, f, 'slot', k, src=kind)], f'{kind}.{f}[{k}] = {kind}.{g}[{k}]')
+        elif how == 'insert':
+            F.insert(k + 1, x)
+            s.mutated('insert_same', 'stmt.list.sibling', [s.site(o, f, 'list', k + 1, src=kind)],
+                      f'{kind}.{f}.insert({k + 1}, {kind}.{g}[{k}])')
+        else:
+            if len(G) < 2 and g == 'body':
+                return False
+            F[k] = G.pop(k)
+            s.mutated('move', 'stmt.list.sibling', [s.site(o, g, 'list', k), s.site(o, f, 'slot', k, src=kind)],
+                      f'{kind}.{f}[{k}] = {kind}.{g}.pop({k})')
+        return True
+
+    def pair(self, nodes) -> bool:
+        """Adjacent statements from two blocks of one compound statement of another tree put side by side."""
+        rng, s = self.rng, self.s
+        lists = [(o, f) for o, _ in nodes for f, t, q in grammar.FIELDS.get(o.__class__.__name__, ())
+                 if t == 'stmt' and q == '*']
+        if not lists:
+            return False
+        o, f = rng.choice(lists)
+        lst = getattr(o, f)
+        pr, d = foreign_pair(s, rng, rng.randrange(50))
+        i = rng.randrange(len(lst) + 1)
+        kind = o.__class__.__name__
+        if lst and rng.random() < 0.3:         # over an existing statement
+            i = min(i, len(lst) - 1)
+            lst[i:i + 1] = pr
+        else:
+            lst[i:i] = pr
+        s.mutated('insert_other', 'stmt.list.pair', [s.site(o, f, 'list', i)], f'{kind}.{f}[{i}:{i}] = other {d}')
+        return True
+
+    def dict_pairs(self, nodes) -> bool:
+        """Membership / order of the (key, value) pairs of a Dict, including `**value` entries (key None)."""
+        rng, s = self.rng, self.s
+        dicts = [o for o, _ in nodes if isinstance(o, ast.Dict)]
+        if not dicts:
+            return False
+        star = [o for o in dicts if any(k is None for k in o.keys)]
+        o = rng.choice(star if star and rng.random() < 0.7 else dicts)
+        K, V = o.keys, o.values
+        n = len(K)
+        if len(V) != n:
+            return False
+        had = any(k is None for k in K)
+        op = rng.choice(['delete', 'insert', 'insert_star', 'swap', 'dup', 'star', 'unstar'])
+
+        def ex():
+            got = self.source('expr', o)
+            return got[0] if got else ast.Name(id=f'dx{rng.randrange(50)}')
+
+        i = rng.randrange(n) if n else 0
+        if op == 'delete' and n >= 1:
+            at = 'star' if K[i] is None else 'key'
+            del K[i], V[i]
+            kind = 'delete'
+        elif op in ('insert', 'insert_star'):
+            i = rng.randrange(n + 1)
+            at = 'star' if op == 'insert_star' else 'key'
+            K.insert(i, None if op == 'insert_star' else ex())
+            V.insert(i, ex())
+            kind = 'insert_new'
+        elif op == 'swap' and n >= 2:
+            i, j = sorted(rng.sample(range(n), 2))
+            at = 'star' if K[i] is None or K[j] is None else 'key'
+            K[i], K[j] = K[j], K[i]
+            V[i], V[j] = V[j], V[i]
+            kind = 'swap'
+        elif op == 'dup' and n >= 1:
+            j = rng.randrange(n + 1)
+            at = 'star' if K[i] is None else 'key'
+            K.insert(j, K[i])
+            V.insert(j, V[i])
+            kind = 'dup'
+        elif op == 'star' and n >= 1 and K[i] is not None:
+            K[i] = None
+            at, kind = 'star', 'delete'
+        elif op == 'unstar' and n >= 1 and K[i] is None:
+            K[i] = ex()
+            at, kind = 'star', 'insert_new'
+        else:
+            return False
+        ctxt = 'withstar' if had or any(k is None for k in K) else 'nostar'
+        s.mutated(kind, f'dict.pair.{at}/{ctxt}', [s.site(o, 'keys', 'list', i), s.site(o, 'values', 'list', i)],
+                  f'Dict pairs {op} @{i}')
+        return True
+
     def step(self) -> bool:
         rng = self.rng
         s = self.s
         nodes = [(n, p) for n, p in walk(s.root.a) if not isinstance(n, FSTRINGY)]
+        r = rng.random()
+        if r < 0.08 and self.sibling(nodes):
+            return True
+        if 0.08 <= r < 0.13 and self.pair(nodes):
+            return True
+        if 0.13 <= r < 0.19 and self.dict_pairs(nodes):
+            return True
         for _ in range(30):
             strat = None
             if rng.random() < 0.3:
@@ -561,7 +727,7 @@ class Mutator:
                 return f'mod{rng.randrange(50)}'
             return rng.choice([f'id{rng.randrange(50)}', val + '_x', 'z'])
         if typ == 'constant':
-            if isinstance(val, (bool, int, float)) and val in (0, 1) and rng.random() < 0.15:
+            if isinstance(val, (bool, int, float)) and val in (0, 1) and rng.random() < 0.6:
                 return rng.choice([v for v in (bool(val), int(val), float(val)) if type(v) is not type(val)])
             if isinstance(val, bool) or val is None or val is Ellipsis:
                 return rng.choice([v for v in (True, False, None) if v is not val])
